@@ -31,6 +31,8 @@ OPS = [
     (r' \+ ', ' - '), (r' - ', ' + '), (r' && ', ' || '), (r' \|\| ', ' && '),
     (r'\bif !', 'if '), (r'\.is_some\(\)', '.is_none()'), (r'\.is_none\(\)', '.is_some()'),
     (r'\+= 1\b', '+= 2'), (r'\b30\b', '31'), (r'\.rev\(\)', ''),
+    (r'\btrue\b', 'false'), (r'\bfalse\b', 'true'), (r' \* ', ' + '), (r'\b1\b', '2'), (r'\b0\b', '1'),
+    (r'\.abs\(\)', ''), (r'\bSome\((\w+)\)$', 'None'), (r' / ', ' * '),
 ]
 
 
@@ -62,7 +64,7 @@ def code_lines(text):
 def main():
     per_file = int(sys.argv[1]) if len(sys.argv) > 1 else 5
     only = sys.argv[2] if len(sys.argv) > 2 else ''
-    random.seed(20260928)
+    random.seed(int(os.environ.get('MUTCAMP_SEED', '20260928')))
     if not os.path.isdir(WT):
         subprocess.run(['git', '-C', '/repo', 'worktree', 'add', '-q', '--detach', WT, 'HEAD'], check=True)
     outp = os.path.join(ROOT, '.work', 'mutcamp.jsonl')
